@@ -34,6 +34,8 @@ func TextAlphaFor(alpha string) []byte {
 func TextAlphaBoundary(alpha string) []byte {
 	out := []byte(alpha)
 	out = append(out, []byte("09/:AZ@[az`{_ \t\n\r\x0b")...)
+	// bytes that text tools like to treat specially: NUL, form feed, DEL, and the three bytes of a byte-order mark
+	out = append(out, 0x00, 0x0c, 0x7f, 0xEF, 0xBB, 0xBF)
 	for i := 0; i < len(alpha); i++ {
 		out = append(out, alpha[i]+1, alpha[i]-1)
 		if alpha[i] >= 'a' && alpha[i] <= 'z' {
